@@ -120,6 +120,70 @@ def cmd_run(sid, props, tier):
     save_meta(sid, m)
 
 
+ALL_PROPS = [f'C{i:02d}' for i in range(1, 21)]
+
+
+def cmd_harmless(prop, wt):
+    """imports harmless_N.diff of a sub-agent worktree as seeded/harmless/<prop>-hN/, applies each to /repo, runs ALL checks (quick) and expects exit 0 everywhere"""
+    metas = []
+    try:
+        metas = json.load(open(os.path.join(wt, 'harmless_meta.json')))
+    except Exception:
+        pass
+    for i in range(1, 9):
+        src = os.path.join(wt, f'harmless_{i}.diff')
+        if not os.path.exists(src):
+            continue
+        sid = f'{prop}-h{i}'
+        d = os.path.join(SEEDED, 'harmless', sid)
+        os.makedirs(d, exist_ok=True)
+        shutil.copy(src, os.path.join(d, 'patch.diff'))
+        am = next((m for m in metas if isinstance(m, dict) and str(m.get('patch', '')).endswith(f'harmless_{i}.diff')), {})
+        m = {'seed': sid, 'property': prop, 'kind': 'behaviour-preserving edit (false-alarm probe)', 'origin': 'fresh sub-agent given only the property text and a scratch worktree',
+             'edit_kind': am.get('kind'), 'what': am.get('what'), 'why_preserving': am.get('why_preserving'), 'agent_reported_tests': am.get('tests_passed')}
+        json.dump(m, open(os.path.join(d, 'meta.json'), 'w'), indent=1, ensure_ascii=False)
+        cmd_harmless_run(sid)
+
+
+def cmd_harmless_run(sid, props=None):
+    d = os.path.join(SEEDED, 'harmless', sid)
+    m = json.load(open(os.path.join(d, 'meta.json')))
+    rc, out = sh(['git', '-C', REPO, 'status', '--porcelain', '--untracked-files=no'])
+    assert not out.strip(), '/repo has uncommitted changes'
+    rc, out = sh(['git', '-C', REPO, 'apply', os.path.join(d, 'patch.diff')])
+    if rc != 0:
+        m['applies'] = False
+        json.dump(m, open(os.path.join(d, 'meta.json'), 'w'), indent=1, ensure_ascii=False)
+        print(sid, 'DOES NOT APPLY', out[-200:])
+        return
+    res = {}
+    try:
+        rct, outt = sh([PY, '-m', 'pytest', '-q', '-p', 'no:cacheprovider', '-x'], cwd=REPO, env={'PYTHONDONTWRITEBYTECODE': '1'})
+        m['suite_rc'] = rct
+        outdir = tempfile.mkdtemp(prefix='harmrun_', dir='/tmp')
+        procs = {}
+        for p in (props or ALL_PROPS):
+            e = dict(os.environ)
+            e['VERIF_OUT'] = os.path.join(outdir, p)
+            procs[p] = subprocess.Popen([os.path.join(HERE, 'bin', 'vcheck'), p, '--tier', 'quick'], env=e, stdout=subprocess.PIPE, stderr=subprocess.STDOUT, text=True)
+        for p, pr in procs.items():
+            o = pr.communicate()[0]
+            if pr.returncode != 0:
+                lines = [l for l in o.splitlines() if l.startswith(('VIOLATION', 'UNDECIDED', 'CHECKER-ERROR', '  obligation'))][:6]
+                res[p] = {'rc': pr.returncode, 'lines': lines or o.splitlines()[-4:]}
+        shutil.rmtree(outdir, ignore_errors=True)
+    finally:
+        rc, out = sh(['git', '-C', REPO, 'checkout', '--', '.'])
+        assert rc == 0, out
+    m['applies'] = True
+    m['alarms'] = res
+    json.dump(m, open(os.path.join(d, 'meta.json'), 'w'), indent=1, ensure_ascii=False)
+    print(sid, 'suite rc', m.get('suite_rc'), 'ALARMS' if res else 'quiet', {k: v['rc'] for k, v in res.items()})
+    for k, v in res.items():
+        for l in v['lines'][:4]:
+            print('    ', k, l[:220])
+
+
 def cmd_table():
     rows = []
     for sid in sorted(os.listdir(SEEDED)):
@@ -154,3 +218,7 @@ if __name__ == '__main__':
         cmd_run(a[1], rest, tier)
     elif a[0] == 'table':
         cmd_table()
+    elif a[0] == 'harmless':
+        cmd_harmless(a[1], a[2])
+    elif a[0] == 'harmless-run':
+        cmd_harmless_run(a[1], a[2:] or None)
